@@ -760,7 +760,7 @@ func TestVerifC31(t *testing.T) {
 		}
 	}
 	// ---------------- A2: PRNG values
-	n := vk.N(60000, 5000000)
+	n := vk.N(180000, 5000000)
 	for i := 0; i < n; i++ {
 		r := vk.RandFor(31, i)
 		var m *mval
